@@ -49,6 +49,7 @@ m("C05","default-digits-6","encoding/wkt/wkt.go","		maxDecimalDigits: -1,","		ma
 # ---- C06
 m("C06","settoplayout-unguarded","encoding/wkt/lex.go","	if l.curLayout() == geom.NoLayout {\n		l.lytStack.setTopLayout(layout)\n	}","	l.lytStack.setTopLayout(layout)","assertion-premises/P3")
 m("C06","gen-edited-without-grammar","encoding/wkt/wkt.gen.go","			ok := wktlex.(*wktLex).validateLayoutStackAtEnd()","			ok := true || wktlex.(*wktLex).validateLayoutStackAtEnd()","gensync")
+m("C06","parser-error-dropped-at-end-of-input","encoding/wkt/lex.go","func (l *wktLex) Error(s string) {\n	l.setSyntaxError(","func (l *wktLex) Error(s string) {\n	if strings.HasSuffix(s, \"unexpected $end\") && l.ret != nil {\n		return\n	}\n	l.setSyntaxError(","parser-error-recorded/")
 m("C06","new-assertion-in-discharged-function","encoding/wkt/lex.go","	if !l.currentlyInBaseTypeCollection() {\n		// A base type is only permitted in a GEOMETRYCOLLECTIONM if it is EMPTY.","	if !l.currentlyInBaseTypeCollection() {\n		if l.curLayout() == geom.XYZM {\n			panic(\"base type inside a ZM collection\")\n		}\n		// A base type is only permitted in a GEOMETRYCOLLECTIONM if it is EMPTY.","panic-inventory/(*encoding/wkt.wktLex).validateBaseGeometryTypeAllowed")
 m("C06","reslice-outside-pop","encoding/wkt/lex_stack.go","func (s *layoutStack) setTopNextPointMustBeEmpty(nextPointMustBeEmpty bool) {","func (s *layoutStack) setTopNextPointMustBeEmpty(nextPointMustBeEmpty bool) {\n	if len(s.data) > 3 {\n		s.data = s.data[:1]\n	}","assertion-premises/P4")
 # ---- C07
